@@ -31,7 +31,13 @@ def type_name(nodes, k):
 class Presenter:
     """expect: 'value' while the presentation still denotes the value; 'err' once a deliberate
     breakage was injected (the serializer must fail); 'unknown' when we cannot tell."""
-    def __init__(self, rng, nodes, break_prob=0.0, by_type_prob=0.3, canonical_layout=False):
+    def __init__(self, rng, nodes, break_prob=0.0, by_type_prob=0.3, canonical_layout=False, option_prob=0.0):
+        # option_prob: unions of exactly null and one other branch presented the way Option<T> is (none / unit for
+        # null; (some P) or P alone for the other branch, P being a presentation a Rust value of that type makes).
+        # The type then determines the branch, so the expectation is 'value-if-ok': the serializer may only
+        # succeed with an encoding of this very value (whether it must succeed is the model's word: model_diffs)
+        self.option_prob = option_prob
+        self.exact = 0
         self.canonical_layout = canonical_layout
         self.rng, self.nodes = rng, nodes
         self.break_prob = break_prob
@@ -62,6 +68,8 @@ class Presenter:
         n = nodes[k]
         kind = n.kind()
         if kind == "null":
+            if self.exact:
+                return rng.choice(["unit", "none"])
             return rng.choice(["unit", "none", "(unit_struct %s)" % hx("Anything"),
                                "(unit_variant %s 0 %s)" % (hx("E"), hx("Null"))])
         if kind == "boolean":
@@ -153,12 +161,28 @@ class Presenter:
             inner_e = e[2]
             tn = type_name(nodes, vk)
             r = rng.random()
+            kinds = [nodes[x].kind() for x in n.variants]
+            if self.option_prob and len(kinds) == 2 and kinds.count("null") == 1 and rng.random() < self.option_prob:
+                before = self.expect
+                if nodes[vk].kind() == "null":
+                    p = rng.choice(["none", "none", "unit"])
+                else:
+                    self.exact += 1
+                    p = self.pres(vk, inner_e)
+                    self.exact -= 1
+                    if rng.random() < 0.7:
+                        p = "(some %s)" % p
+                if self.expect == "value":
+                    self.expect = "value-if-ok"
+                elif self.expect == "err" and before != "err":
+                    self.expect = "decodable"     # (a breakage of the intended branch may still suit the lookup)
+                return p
             if r < self.by_type_prob:
                 # type-directed: the outcome depends on the lookup table; we do not know whether it is
                 # unambiguous, so the expectation is only "if Ok, it must decode to the value"
                 before = self.expect
                 p = self.pres(vk, inner_e)
-                if self.expect == "value" or (self.expect == "err" and before != "err"):
+                if self.expect in ("value", "value-if-ok") or (self.expect == "err" and before != "err"):
                     # (a breakage of the intended branch may still suit another branch)
                     self.expect = "decodable"
                 if rng.random() < 0.3:
@@ -168,7 +192,7 @@ class Presenter:
             if nodes[vk].kind() == "null" and rng.random() < 0.5:
                 # a unit variant is resolved by type (String/Bytes/Enum branches are preferred)
                 if any(nodes[x].kind() in ("string", "bytes", "enum") for x in n.variants):
-                    if self.expect == "value":
+                    if self.expect in ("value", "value-if-ok"):
                         self.expect = "decodable"
                 return "(unit_variant %s %d %s)" % (hx("U"), i, hx("Null"))
             if r < self.by_type_prob + 0.15:
@@ -231,6 +255,11 @@ class Presenter:
                 self.note("bad enum symbol/index")
                 return rng.choice(["(str %s)" % hx("NOPE"), "(i32 %d)" % len(n.symbols), "(i64 -1)",
                                    "(unit_variant %s 0 %s)" % (hx("E"), hx("NOPE"))])
+            if self.exact:
+                # what a Rust enum (named like the Avro enum, in full or in short) or a string makes
+                if r < 0.2:
+                    return "(str %s)" % hx(sym)
+                return "(unit_variant %s %d %s)" % (hx(rng.choice([n.name, n.name.split(".")[-1]])), i, hx(sym))
             if r < 0.3:
                 return "(str %s)" % hx(sym)
             if r < 0.6:
@@ -243,6 +272,9 @@ class Presenter:
             if rng.random() < self.break_prob:
                 self.expect = "err"
                 self.note("wrong fixed length")
+                if len(b) >= 1 and rng.random() < 0.4:
+                    # the right number of CHARS, too many bytes
+                    return "(str %s)" % hx("\u00e9" + "a" * (len(b) - 1))
                 return "(bytes %s)" % hx(b + b"\x00")
             r = rng.random()
             if r < 0.15 and is_utf8(b):
